@@ -299,3 +299,16 @@ Proof.
   exists (RenDefs.ren_pos dr o s off), M1, M2. split; [exact X1|]. split; [|apply (ren_frame_trans m M1 M2); assumption].
   rewrite X2. destruct (roundtrip dr o (fun s0 => Permutation_refl _) s) as [R _]. rewrite (R off Hoff). reflexivity.
 Qed.
+
+(* ------------------------------------------------------------------ deciding the hypotheses on concrete memories / lines (for the Examples) *)
+Lemma ro_at_upd m g x : ro_at m -> ro_g g = false -> ro_at (upd m g x).
+Proof.
+  intros H Hg g' Hg'. destruct (Nat.lt_ge_cases g (length m)) as [L|L].
+  - rewrite mem_upd_other; [apply H; exact Hg'|exact L|intro E; subst g'; congruence].
+  - unfold upd. rewrite firstn_all2, skipn_all2 by lia. pose proof (ro_lt m g' H Hg').
+    rewrite nth_error_app1 by lia. apply H. exact Hg'.
+Qed.
+Lemma globals_at_self : globals_at cglobals.
+Proof. intros g blk H. exact H. Qed.
+Lemma no_trunc_dec s : forallb (fun q => (q + uc_len_b (nthb s q) <=? length s)%nat) (seq 0 (length s)) = true -> no_trunc s.
+Proof. intros H q Hq. rewrite forallb_forall in H. apply Nat.leb_le. apply H. apply in_seq. lia. Qed.
